@@ -463,8 +463,109 @@ func importRules(r *Run, p *Prog, w *genWalker, root string) {
 	// import decisions in the template function
 	decided := map[string]string{} // package name -> how
 	usedFromParse := false
-	ast.Inspect(fd.Body, func(n ast.Node) bool {
+	// the decisions may sit in the template function or in a helper it calls (every function of the generator is looked at)
+	var bodies []ast.Node
+	var names []string
+	for name := range w.funcs {
+		names = append(names, name)
+	}
+	sort.Strings(names)
+	for _, name := range names {
+		if w.funcs[name].Body != nil {
+			bodies = append(bodies, w.funcs[name].Body)
+		}
+	}
+	inspect := func(n ast.Node) bool {
 		switch x := n.(type) {
+		case *ast.RangeStmt:
+			// table form: for _, e := range []struct{ name, path string }{{"json", "\"encoding/json\""}, ...} {
+			//                 if used[e.name] { imports = append(imports, e.path) } }
+			cl, ok := x.X.(*ast.CompositeLit)
+			ev, ok2 := x.Value.(*ast.Ident)
+			if !ok || !ok2 || len(x.Body.List) != 1 {
+				return true
+			}
+			ifs, ok := x.Body.List[0].(*ast.IfStmt)
+			if !ok || ifs.Else != nil {
+				return true
+			}
+			ix, ok := ifs.Cond.(*ast.IndexExpr)
+			if !ok {
+				return true
+			}
+			if _, isMap := info.TypeOf(ix.X).Underlying().(*types.Map); !isMap {
+				return true
+			}
+			keySel, ok := ix.Index.(*ast.SelectorExpr)
+			if !ok {
+				return true
+			}
+			if id, ok := keySel.X.(*ast.Ident); !ok || info.Uses[id] != info.Defs[ev] {
+				return true
+			}
+			// the appended member
+			var pathSel *ast.SelectorExpr
+			ast.Inspect(ifs.Body, func(y ast.Node) bool {
+				if c, ok := y.(*ast.CallExpr); ok {
+					if id, ok := c.Fun.(*ast.Ident); ok && id.Name == "append" && len(c.Args) == 2 {
+						if se, ok := c.Args[1].(*ast.SelectorExpr); ok {
+							if id2, ok := se.X.(*ast.Ident); ok && info.Uses[id2] == info.Defs[ev] {
+								pathSel = se
+							}
+						}
+					}
+				}
+				return true
+			})
+			if pathSel == nil {
+				return true
+			}
+			st, ok := info.TypeOf(cl).Underlying().(*types.Slice)
+			if !ok {
+				return true
+			}
+			est, ok := st.Elem().Underlying().(*types.Struct)
+			if !ok {
+				return true
+			}
+			ki, pi := -1, -1
+			for i := 0; i < est.NumFields(); i++ {
+				if est.Field(i).Name() == keySel.Sel.Name {
+					ki = i
+				}
+				if est.Field(i).Name() == pathSel.Sel.Name {
+					pi = i
+				}
+			}
+			for _, el := range cl.Elts {
+				row, ok := el.(*ast.CompositeLit)
+				if !ok || ki < 0 || pi < 0 {
+					continue
+				}
+				val := func(i int) string {
+					for j, e := range row.Elts {
+						var ve ast.Expr
+						if kv, ok := e.(*ast.KeyValueExpr); ok {
+							if kid, ok := kv.Key.(*ast.Ident); ok && kid.Name == est.Field(i).Name() {
+								ve = kv.Value
+							}
+						} else if j == i {
+							ve = e
+						}
+						if ve != nil {
+							if tv, ok := info.Types[ve]; ok && tv.Value != nil && tv.Value.Kind() == constant.String {
+								return constant.StringVal(tv.Value)
+							}
+						}
+					}
+					return ""
+				}
+				key, path := val(ki), strings.Trim(val(pi), `"`)
+				if key != "" && path != "" && path[strings.LastIndex(path, "/")+1:] == key {
+					decided[key] = "selector use in the parsed output"
+				}
+			}
+			return true
 		case *ast.CallExpr:
 			if se, ok := x.Fun.(*ast.SelectorExpr); ok {
 				if id, ok := se.X.(*ast.Ident); ok && id.Name == "parser" && se.Sel.Name == "ParseFile" {
@@ -516,7 +617,10 @@ func importRules(r *Run, p *Prog, w *genWalker, root string) {
 			}
 		}
 		return true
-	})
+	}
+	for _, b := range bodies {
+		ast.Inspect(b, inspect)
+	}
 	var qs []string
 	for q := range quals {
 		qs = append(qs, q)
@@ -657,9 +761,38 @@ func nullableRules(r *Run, p *Prog, m *idlModel, root string) {
 	}
 	// normalisation loops: a range over X.Errors in which, under member == nil, a fresh node is stored into the member
 	normalised := map[member]ssa.Instruction{}
-	rootFn := p.Func(pkgGen, root)
-	if rootFn != nil {
-		for _, b := range rootFn.Blocks {
+	// the generator is analysed in inlined views (inline.go): starting from the functions nobody in the package calls,
+	// plus whatever stays a call in those views (the recursive type writer). A section of the template factored into a
+	// helper is then looked at in the context of its caller (e.g. "m.In is a method's input").
+	var views []*ssa.Function
+	{
+		cgG := BuildCallGraph(p)
+		seenV := map[*ssa.Function]bool{}
+		var work []*ssa.Function
+		for _, f := range gen {
+			if f.Parent() == nil && len(f.Blocks) > 0 && len(cgG.Callers[f]) == 0 {
+				work = append(work, f)
+			}
+		}
+		for len(work) > 0 {
+			f := work[0]
+			work = work[1:]
+			if seenV[f] {
+				continue
+			}
+			seenV[f] = true
+			v := p.Inlined(f, nil)
+			views = append(views, v)
+			for _, cs := range callsIn(v, true) {
+				if t := cs.Common.StaticCallee(); t != nil && fnPkgPath(t) == pkgGen && t.Parent() == nil && len(t.Blocks) > 0 && !seenV[t] {
+					work = append(work, t)
+				}
+			}
+		}
+	}
+	var rootFn *ssa.Function
+	for _, vf := range views {
+		for _, b := range vf.Blocks {
 			for _, in := range b.Instrs {
 				st, ok := in.(*ssa.Store)
 				if !ok {
@@ -684,16 +817,14 @@ func nullableRules(r *Run, p *Prog, m *idlModel, root string) {
 				if hasFact(T.FactsAt(b), "EQ", strip(T.T(fa))[1:], "nil") || hasFactRe(T.FactsAt(b), `^EQ\(.*\.`+key.F+`,nil\)$|^EQ\(nil,.*\.`+key.F+`\)$`) {
 					if blockInLoop(b) {
 						normalised[key] = st
+						rootFn = vf
 					}
 				}
 			}
 		}
 	}
 	n := 0
-	for _, f := range gen {
-		if f.Parent() != nil {
-			continue
-		}
+	for _, f := range views {
 		for _, b := range f.Blocks {
 			for _, in := range b.Instrs {
 				var v ssa.Value
